@@ -453,6 +453,38 @@ def check(ctx):
                               {'writer_header': [repr(i) for i in hdr], 'reader_start': [repr(i) for i in R[:2]]})
         ctx.guard('R8.header', fsite(g.wfunc), r8)
 
+    # R9: the reading factories construct the checkpoint from the stream unless it is at EOF
+    for nm in ('hep::make_plain_chkpt', 'hep::make_vegas_chkpt', 'hep::make_multi_channel_chkpt'):
+        for f in [f for f in instances(p, nm) if len(f.params) == 1 and 'istream' in (f.params[0].type or '')]:
+            ctx.analysed(f)
+
+            def r9(f=f, nm=nm):
+                from .common import summarise as _sum
+                s, ex = _sum(p, f, opaque={'hep::chkpt_with_rng', nm})
+                where = fsite(f)
+                peeks = [e for e, l in flat_effects(s.effects) if e['kind'] == 'in' and e['how'] == 'peek']
+                reads = [e for e, l in flat_effects(s.effects) if e['kind'] == 'in' and e['how'] != 'peek']
+                ok = len(peeks) == 1 and not reads and len(s.returns) == 2
+                for pc, v in s.returns:
+                    c = T.conj(pc)
+                    eof = isinstance(c, tuple) and c[0] == '==' and ('const', 'eof') in c
+                    neof = isinstance(c, tuple) and c[0] == 'not' and c[1][0] == '==' and ('const', 'eof') in c[1]
+                    if eof:
+                        ok = ok and isinstance(v, tuple) and v[0] == 'hcall' and v[1] == nm
+                    elif neof:
+                        ok = ok and isinstance(v, tuple) and v[0] == 'new' and 'chkpt_with_rng' in str(v[1]) and \
+                            v[-1] == sym('in')
+                    else:
+                        ok = False
+                if ok:
+                    ctx.holds('R9.factory', where, 'the reading factory hands the untouched stream to the '
+                              'deserialising constructor unless the stream is at end of file')
+                else:
+                    ctx.violation('R9.factory', where, 'the reading factory does not construct the checkpoint '
+                                  'from the whole stream', {'returns': [(T.pretty(T.conj(pc))[:100], T.pretty(v)[:120])
+                                                                        for pc, v in s.returns]})
+            ctx.guard('R9', fsite(f), r9)
+
     # obligations behind the implicit counts
     from . import invariants
     invariants.check_implicit_counts(ctx, p)
